@@ -477,6 +477,13 @@ class SIter(Sym):
     def __bool__(self):
         return bool(self._vc_bool())
 
+    def _vc_contains(self, x):
+        v = bv("v!ic", self.sort)
+        e = self.elem(v)
+        if not isinstance(e, (SBool, SInt, STerm)):
+            raise Unsupported("membership test in a collection of non-scalar proxies")
+        return SBool(z3.Exists([v], z3.And(self.pred(v), e.t == term(x))))
+
     def to_set(self, name="coll"):
         """only for collections whose elements are the bound variable itself"""
         v = bv("v!t", self.sort)
@@ -493,6 +500,8 @@ def as_set(o, sort_hint=None):
     if isinstance(o, SSet):
         return o
     if isinstance(o, SList):
+        return o.as_set()
+    if isinstance(o, SSeq):
         return o.as_set()
     if isinstance(o, SIter):
         return o.to_set()
@@ -827,6 +836,8 @@ def vc_bool(x):
 def vc_set(it=()):
     if isinstance(it, SSet):
         return it.copy()
+    if isinstance(it, SSeq):
+        return it.as_set()
     if isinstance(it, SList):
         return it.as_set()
     if isinstance(it, SIter):
@@ -1034,6 +1045,28 @@ class SSeq(Sym):
         if not isinstance(e, (SBool, SInt, STerm)):
             raise Unsupported("membership test in a sequence of non-scalar proxies")
         return SBool(z3.Exists([i], z3.And(i >= 0, i < self.n, e.t == term(x))))
+
+    def _scalar_sort(self):
+        e = self.at(bv("i!ss", I))
+        if not isinstance(e, STerm):
+            raise Unsupported("set / concatenation of a sequence of non-scalar proxies")
+        return e.t.sort(), type(e)
+
+    def as_set(self, name="seq_elems"):
+        """the set of the elements of a sequence of scalar terms"""
+        sort, _ = self._scalar_sort()
+        i = bv("i!as", I)
+        at = self.at
+        s = SSet.define(name, sort, lambda t_: z3.Exists([i], z3.And(i >= 0, i < self.n, at(i).t == t_)))
+        C.assume(s.c <= self.n)
+        return s
+
+    def __add__(self, o):
+        if not isinstance(o, SSeq):
+            raise Unsupported("sequence + non-sequence")
+        sort, cls = self._scalar_sort()
+        n1, a, b = self.n, self.at, o.at
+        return SSeq(self.n + o.n, lambda i: cls(z3.If(i < n1, a(i).t, b(i - n1).t)), self.kind, "concat")
 
     def __iter__(self):
         raise Unsupported("native iteration over a symbolic sequence")
